@@ -50,6 +50,9 @@ PROPS.update({
               "the table-domain invariants the hash relies on are deductive obligations of C01-C04",
               "Equality direction over 15 history variants per content (orders, detours through removed hyperedges and nodes), difference direction over every single edit, for all "
               "four container types on an enumerated small scope plus random contents. SHA-256 collision resistance is assumed.", "DESIGN.md §7 C07"),
+    "C09": _b("bounded run-time contract checking of every matrix/tensor function entry by entry against the definition under the returned mapping",
+              "scipy.sparse / LabelEncoder code is outside the deductive engine; all hypergraphs on <= 4 nodes (six label/weight variants), all temporal hypergraphs with <= 3 timed "
+              "hyperedges, seeded random larger ones, every order present or absent, keep_isolated_nodes both ways.", "DESIGN.md §7 C09"),
     "C10": _b("bounded run-time contract checking of the projections and the simplicial complex against set-builder definitions",
               "networkx-based code is outside the deductive engine; every clause of the statement is evaluated on all small hypergraphs (and directed ones) of a stated scope and on "
               "seeded random ones, for all 12 (distance, threshold, weighted) configurations.", "DESIGN.md §7 C10"),
